@@ -1,5 +1,6 @@
 import Driver.Proto
 import PdtVerif.Model.NgramTrie
+import PdtVerif.Model.NgramFlatCheck
 import PdtVerif.Spec.Backoff
 import PdtVerif.Model.NgramArpa
 /-! Driver for C06: builds the flat trie from a table, evaluates the lookup model
@@ -24,11 +25,6 @@ def parseItem (j : Json) : Except String Item := do
     | none => pure (LogP.fin 0)
     | some v => jsonToLP v
   pure ⟨key, lp, lb⟩
-
-def specEntry (top : Bool) (e : Item) : List Int × PdtVerif.Backoff.Entry :=
-  let p : Option Rat := match e.logp with | .fin q => some q | _ => none
-  let b : Rat := if top then 0 else match e.logb with | .fin q => q | _ => 0
-  (e.key, (p, b))
 
 def optJ' (o : Option Rat) : Json := match o with | some q => ratToJson q | none => strJ "-inf"
 
@@ -74,8 +70,9 @@ def c06Table : Handler := fun c => do
     let idxRes := idxs.map (fun hidx => calcIdx b V sos B hist hidx)
     -- the oracle: Katz recursion on the raw table, raw contexts
     let N := dicts.length
-    let tblList := (dicts.zipIdx).flatMap (fun (d, n) => d.map (specEntry (n + 1 == N)))
-    let tbl := PdtVerif.Backoff.ofList tblList
+    let tbl := PdtVerif.Backoff.ofList (tableOf dicts)
+    -- translation validation of the flat layer (hypothesis of theorem C06_lookup_checked)
+    let flatOk := checkBuilt V sos dicts b
     let T := hist.length
     let specFull := (List.range (T + 1)).map (fun t => (List.range B).map (fun bb =>
       PdtVerif.Backoff.row tbl V (PdtVerif.Backoff.context N sos (col hist bb) t)))
@@ -83,7 +80,7 @@ def c06Table : Handler := fun c => do
       ("build", buffersJ b), ("shape", shapeJ), ("full", full3J full),
       ("chunk_agree", listJ boolJ chunkAgree), ("byidx_agree", boolJ byIdx),
       ("view_rows_ok", boolJ viewOk), ("view_contig", boolJ view.isContig),
-      ("flat_agree", boolJ flatAgree),
+      ("flat_agree", boolJ flatAgree), ("flat_check", boolJ flatOk),
       ("idx", listJ (listJ (listJ lpJ)) idxRes),
       ("spec_full", listJ (listJ (listJ optJ')) specFull)])
 
